@@ -8,6 +8,8 @@ import (
 
 	"github.com/go-gts/gts"
 
+	"github.com/go-gts/gts/seqio"
+
 	"verifharness/fw"
 	"verifharness/gen"
 	"verifharness/model"
@@ -19,10 +21,10 @@ func init() { register(c10{}) }
 
 func (c10) ID() string { return "C10" }
 func (c10) Rule() string {
-	return "insert;delete and embed;delete: every location of gen.Universe(L<=5|6,arity<=3) as the single labelled host feature x every index x guest length {1,3}, plus seeded hosts (L<=60, <=8 features, BasicSequence and seqio.GenBank, guests with features): Delete(Insert|Embed(h,i,g),i,len g) must restore the residues and give every host feature the same base atoms and open-end markers as originally, and (for features whose parts are sorted, disjoint and non-abutting) the same number of contiguous range parts (the split re-merged; ambiguous spans split into an order are don't-care structurally). cut;concat: all cut sets of 0..4 distinct cut points in [0,L] (0 and L give an empty end piece) (exhaustive for L<=6|7 with Universe(L,2), seeded for L<=60): Concat of the Slice pieces restores the residues and, per labelled feature, the union of the fragments' residues (with strand) equals the original's. non-trivial: the edit touches a feature; distinct: canonical case text."
+	return "insert;delete and embed;delete: every location of gen.Universe(L<=5|6,arity<=3) as the single labelled host feature x every index x guest length {1,3}, plus seeded hosts (L<=60, <=8 features, BasicSequence and seqio.GenBank, guests with features): Delete(Insert|Embed(h,i,g),i,len g) must restore the residues and give every host feature the same base atoms and open-end markers as originally, and (for features whose parts are sorted, disjoint and non-abutting) the same number of contiguous range parts (the split re-merged; ambiguous spans split into an order are don't-care structurally). cut;concat: all cut sets of 0..4 distinct cut points in [0,L] (0 and L give an empty end piece) (exhaustive for L<=6|7 with Universe(L,2), seeded for L<=60): Concat of the Slice pieces restores the residues and, per labelled feature, the union of the fragments' residues (with strand) equals the original's. non-trivial: the edit touches a feature; distinct: canonical case text. Hosts may list the same annotation twice (both copies come back; every fragment of a cut comes twice); guests may be CONTIG-only records."
 }
 func (c10) RequiredBuckets(tier string) []string {
-	out := []string{"undo:Insert", "undo:Embed", "undo:split-remerged", "undo:ambiguous-dontcare", "cut:0", "cut:1", "cut:2", "cut:3", "cut:4", "cut:feature-fragmented", "host:genbank", "host:basic"}
+	out := []string{"undo:Insert", "undo:Embed", "undo:split-remerged", "undo:ambiguous-dontcare", "cut:0", "cut:1", "cut:2", "cut:3", "cut:4", "cut:feature-fragmented", "host:genbank", "host:basic", "undo:guest:contig-only-record", "undo:host-feature-listed-twice", "cut:host-feature-listed-twice"}
 	for _, k := range []string{"point", "site", "range", "prange", "ambiguous", "join", "order", "c-range", "c-join"} {
 		out = append(out, "kind|"+k)
 	}
@@ -42,7 +44,7 @@ func rangeCount(pp []model.Part) int {
 	return n
 }
 
-func (m c10) undo(c *fw.Ctx, kind string, tab []gts.Feature, hostB []byte, gtab []gts.Feature, guestB []byte, i int, embed bool) {
+func (m c10) undo(c *fw.Ctx, kind string, tab []gts.Feature, hostB []byte, gtab []gts.Feature, guestB []byte, i int, embed bool, contigSpan ...int) {
 	op := "Insert"
 	if embed {
 		op = "Embed"
@@ -64,7 +66,20 @@ func (m c10) undo(c *fw.Ctx, kind string, tab []gts.Feature, hostB []byte, gtab 
 	c.Bucket("undo:" + op)
 	c.Bucket("host:" + kind)
 	host := mkHost(kind, tab, hostB)
-	guest := gts.New(nil, gen.SortedTable(gen.CloneTable(gtab)), append([]byte(nil), guestB...))
+	var guest gts.Sequence = gts.New(nil, gen.SortedTable(gen.CloneTable(gtab)), append([]byte(nil), guestB...))
+	if len(contigSpan) > 0 && len(guestB) == 0 {
+		// a guest record that refers to its residues through CONTIG only.
+		gb := mkHost("genbank", gtab, nil).(seqio.GenBank)
+		gb.Fields.Contig = seqio.Contig{Accession: "U00096.3", Region: gts.Segment{0, contigSpan[0]}}
+		gb.Origin = seqio.NewOrigin(nil)
+		guest = gb
+		enc += fmt.Sprintf(" guest-record=CONTIG-only(%d)", contigSpan[0])
+		c.Bucket("undo:guest:contig-only-record")
+	}
+	mult := map[string]int{}
+	for _, f := range tab {
+		mult[gen.Label(f)]++
+	}
 	var res, res2, res3 gts.Sequence
 	p, val, site, stack := fw.Guard(func() {
 		var mid gts.Sequence
@@ -110,9 +125,18 @@ func (m c10) undo(c *fw.Ctx, kind string, tab []gts.Feature, hostB []byte, gtab 
 	}
 	for _, f := range tab {
 		g := got[gen.Label(f)]
-		if len(g) != 1 || g[0].Key != f.Key || !reflect.DeepEqual(g[0].Props, f.Props) {
-			c.Violate("undo:"+op+":feature-identity", enc, gen.Label(f)+" once, same key/qualifiers", fmt.Sprint(g))
+		if len(g) != mult[gen.Label(f)] || g[0].Key != f.Key || !reflect.DeepEqual(g[0].Props, f.Props) {
+			c.Violate("undo:"+op+":feature-identity", enc, fmt.Sprintf("%s %d time(s), same key/qualifiers", gen.Label(f), mult[gen.Label(f)]), fmt.Sprint(g))
 			return
+		}
+		if len(g) > 1 {
+			c.Bucket("undo:host-feature-listed-twice")
+			for _, h := range g[1:] {
+				if model.SafeString(h.Loc) != model.SafeString(g[0].Loc) || !reflect.DeepEqual(h.Props, g[0].Props) {
+					c.Violate("undo:"+op+":copies-of-one-feature-differ", enc, model.SafeString(g[0].Loc), model.SafeString(h.Loc))
+					return
+				}
+			}
 		}
 		before := model.Parts(f.Loc)
 		var obs []model.Part
@@ -198,8 +222,17 @@ func (m c10) cut(c *fw.Ctx, kind string, tab []gts.Feature, hostB []byte, cuts [
 	}
 	got := map[string]map[key]bool{}
 	frag := map[string]int{}
+	mult := map[string]int{}
+	for _, f := range tab {
+		mult[gen.Label(f)]++
+	}
+	printed := map[string]map[string]int{}
 	for _, f := range res.Features() {
 		lab := gen.Label(f)
+		if printed[lab] == nil {
+			printed[lab] = map[string]int{}
+		}
+		printed[lab][model.SafeString(f.Loc)]++
 		if got[lab] == nil {
 			got[lab] = map[key]bool{}
 		}
@@ -226,6 +259,16 @@ func (m c10) cut(c *fw.Ctx, kind string, tab []gts.Feature, hostB []byte, cuts [
 		}
 		if frag[lab] > 1 {
 			c.Bucket("cut:feature-fragmented")
+		}
+		if mult[lab] > 1 {
+			// a feature the host lists m times: every fragment comes m times.
+			c.Bucket("cut:host-feature-listed-twice")
+			for loc, n := range printed[lab] {
+				if n%mult[lab] != 0 {
+					c.Violate("cut:copies-of-one-feature-not-all-kept", enc, fmt.Sprintf("%s: every fragment %d time(s)", lab, mult[lab]), fmt.Sprintf("%s %d time(s)", loc, n))
+					return
+				}
+			}
 		}
 		same := len(want) == len(got[lab])
 		if same {
@@ -362,6 +405,11 @@ func (m c10) Run(c *fw.Ctx) {
 			kind = "genbank"
 		}
 		embed := r.Intn(2) == 0
+		if len(tab) > 0 && r.Intn(5) == 0 {
+			// the same annotation listed twice.
+			tab = append(tab, gen.CloneTable([]gts.Feature{tab[r.Intn(len(tab))]})[0])
+		}
+		span := 1 + r.Intn(30)
 		nc := r.Intn(5)
 		cs := map[int]bool{}
 		for k := 0; k < nc && L > 1; k++ {
@@ -380,6 +428,9 @@ func (m c10) Run(c *fw.Ctx) {
 		}
 		hostB := gen.UniqueBytes(0, L)
 		m.undo(c, kind, tab, hostB, gtab, gen.UniqueBytes(100, n), i, embed)
+		if span%4 == 0 {
+			m.undo(c, kind, tab, hostB, nil, nil, i, embed, span)
+		}
 		m.cut(c, kind, tab, hostB, cuts)
 	}
 }
